@@ -336,16 +336,33 @@ func checkIDStream(s *sctx, b idBounds) {
 			if !ok {
 				continue
 			}
-			if k == 0 {
-				// "+n: start at the nth record": n=0 is not determined
-				s.h.add("unconstrained:tail -n +0")
-				if hasDup(out) {
-					s.viol(nil, args, "output repeats a record: "+fmtIdx(out), "")
-				}
-				continue
-			}
+			// "+n: start at the nth record", records being numbered from 1: the records whose
+			// 1-based position in their group is >= k. For k=0 that is every record, the same
+			// as +1 (reference-verbs.md: "As with GNU tail, a leading + starts at the nth record").
 			s.check(nil, args, expect{mode: mOrdered, idx: refTailFrom(g, k)}, out)
 			tailFrom[k] = out
+		}
+		// starting later never adds a record: tail -n +k is a superset of tail -n +(k+1), for every k >= 0
+		for k := 0; k <= n+1; k++ {
+			a, ok1 := tailFrom[k]
+			bb, ok2 := tailFrom[k+1]
+			if ok1 && ok2 {
+				s.w.Eval(1)
+				s.h.add("law:tail -n +k superset of tail -n +(k+1)")
+				in := map[int]bool{}
+				for _, o := range a {
+					in[o] = true
+				}
+				for _, o := range bb {
+					if !in[o] {
+						p := strings.Join(withG([]string{"k=" + itoa(k)}, G), " ")
+						s.w.Violation(s.prefix+"law:tail -n +k superset of tail -n +(k+1):"+p+":"+s.descr,
+							fmt.Sprintf("tail -n +%d outputs %s but tail -n +%d outputs %s on input %s (%s): starting later must not add records", k, fmtIdx(a), k+1, fmtIdx(bb), s.inputBrief(), p),
+							map[string]any{"law": "tail -n +k superset of tail -n +(k+1)", "params": p, "stdin": s.text})
+						break
+					}
+				}
+			}
 		}
 		// |head -n k| + |tail -n +(k+1)| = number of records having the group-by fields, and the two partition them
 		for k := 0; k <= n+1; k++ {
@@ -376,6 +393,9 @@ func checkIDStream(s *sctx, b idBounds) {
 			}
 		}
 	}
+	// boundary values and spellings of every numeric option
+	checkSpellings(s, Gs[:2])
+
 	// the same counts with one record per batch (head signals "done" upstream between batches)
 	{
 		g := groupByFields(st, nil)
